@@ -526,9 +526,9 @@ def ev_amplitude(facts):
                     n += 1
                     accept = L == q or L == 1
                     if not accept:
-                        if not (isinstance(r, tuple) and r and r[0] == 'Err' and 'StringWrongLen' in str(r[1])) or log:
+                        if not (isinstance(r, tuple) and r and r[0] == 'Err' and 'StringWrongLen' in str(r[1])):
                             if res['rejects-wrong-length'][0]:
-                                res['rejects-wrong-length'] = [False, 'on %d qubits the bit string %s gives %s after the diagram operations %s; it must be rejected with StringWrongLen before the diagram is touched'
+                                res['rejects-wrong-length'] = [False, 'on %d qubits the bit string %s gives %s (diagram operations performed: %s); it must be rejected with the error StringWrongLen'
                                                                % (q, [int(b) for b in bits], _show(r), log)]
                         continue
                     full = tuple(int(b) for b in (bits if L == q else bits * q))
@@ -573,9 +573,9 @@ def ev_expectation(facts):
                         logs.append(log)
                         n += 1
                         if not accept:
-                            if not (isinstance(r, tuple) and r and r[0] == 'Err' and 'StringWrongLen' in str(r[1])) or log:
+                            if not (isinstance(r, tuple) and r and r[0] == 'Err' and 'StringWrongLen' in str(r[1])):
                                 if res['rejects-wrong-length'][0]:
-                                    res['rejects-wrong-length'] = [False, 'on %d qubits the Pauli string %s gives %s after the diagram operations %s; it must be rejected with StringWrongLen before the diagram is touched'
+                                    res['rejects-wrong-length'] = [False, 'on %d qubits the Pauli string %s gives %s (diagram operations performed: %s); it must be rejected with the error StringWrongLen'
                                                                    % (q, ''.join(ps), _show(r), log)]
                             continue
                         full = ps if L == q else ps * q
